@@ -256,9 +256,6 @@ func c04FeaturesRec(l []*c04Item, f map[string]bool, oracle bool) {
 				}
 			}
 		case c04KFunc, c04KArrow:
-			if oracle && it.kind == c04KFunc && c04RestHazard(it.a) {
-				f["rest-param-skips-markfuncargs"] = true
-			}
 			if oracle && it.kind == c04KArrow {
 				_, gs := c04Groups(it.a)
 				for _, g := range gs {
@@ -285,7 +282,7 @@ func c04FeaturesRec(l []*c04Item, f map[string]bool, oracle bool) {
 				c04Mentions(g[1:], m)
 			}
 			for _, x := range append(c04VarNames(it.b), c04LexNames(it.b)...) {
-				if m[x] && !later[x] && !(oracle && it.kind == c04KFunc && c04RestHazard(it.a)) {
+				if m[x] && !later[x] {
 					f["default-captures-body-ref"] = true
 				}
 			}
@@ -1167,6 +1164,12 @@ func c04Oracle(r *Rng, tier string, rep *Report) {
 		{"c04-es:property", "a.b;({b:a});b;", []int64{0, 0, 1}},
 		// class declaration: heritage is resolved outside, methods inside
 		{"c04-es:class-decl", "class A extends B{m(A){A;B;}}A;B;", []int64{0, 1, 2, 2, 1, 0, 1}},
+		// a rest element ends the parameter list like any other parameter: the uses made by the default values stay
+		// outside the body's declarations (fixed in /repo fbb8f20: MarkFuncArgs was skipped after a rest element)
+		{"c04-es:rest-param-skips-markfuncargs", "function f(a=b,...r){var b;}b;", []int64{0, 1, 2, 3, 4, 2}},
+		{"c04-es:rest-param-skips-markfuncargs", "var b;function f(a=b,...r){let b;r;}", []int64{0, 1, 2, 0, 3, 4, 3}},
+		{"c04-es:rest-param-skips-markfuncargs", "function f(a=b,...[x,y]){var b;x;y;}", []int64{0, 1, 2, 3, 4, 5, 3, 4}},
+		{"c04-es:rest-param-skips-markfuncargs", "(function(a=b,...{length:n}){var b;n;});b;", []int64{0, 1, 2, 3, 2, 1}},
 		// while / do / if / switch bodies are blocks
 		{"c04-es:stmt-blocks", "let a;if(a){let a;a;}else{a;}switch(a){case a:let b;b;}b;", []int64{0, 0, 1, 1, 0, 0, 0, 2, 2, 3}},
 	} {
